@@ -15,18 +15,162 @@ import (
 // C17 (c17.go) uses the same key sets.
 
 type c16Case struct {
-	Keys []gen.Bytes `json:"keys"`
+	Keys []gen.Bytes `json:"keys,omitempty"`
 	S    int32       `json:"s,omitempty"`
 	E    int32       `json:"e,omitempty"`
 	M    int32       `json:"m,omitempty"`
 	Max  int32       `json:"max_size,omitempty"`
+	// GenN > 0: the key list is not spelled out but generated: c16GenKeys(GenN, GenStyle)
+	GenN     int `json:"generated_keys,omitempty"`
+	GenStyle int `json:"generated_style,omitempty"`
+}
+
+func (cs c16Case) keys() []string {
+	if cs.GenN > 0 {
+		return c16GenKeys(cs.GenN, cs.GenStyle)
+	}
+	return gen.StringsOf(cs.Keys)
+}
+
+// c16GenKeys returns n strictly ascending keys. Style 0: "k" followed by the
+// 3-byte big-endian counter 0..n-1 (every byte value occurs, first differences on
+// every bit of the last three bytes); style 1: an 8-byte stem followed by the
+// counter as 7 decimal digits (first differences beyond the first 8-byte chunk,
+// only inside the digit range 0x30..0x39).
+func c16GenKeys(n, style int) []string {
+	keys := make([]string, n)
+	for i := range keys {
+		switch style {
+		case 0:
+			keys[i] = string([]byte{'k', byte(i >> 16), byte(i >> 8), byte(i)})
+		default:
+			keys[i] = fmt.Sprintf("stemstem%07d", i)
+		}
+	}
+	return keys
+}
+
+// c16BigHi: the largest generated key list (threshold sizes up to it are all run).
+func c16BigHi(c *mc.Ctx) int { return c.Pick(400001, 1<<20+1) }
+
+// c16Big: FirstDiffBits and CountPrefixes on generated key lists of every
+// threshold size (round numbers ±1) from 1000 keys up.
+func c16Big(c *mc.Ctx) {
+	sizes := gen.ThresholdSizes(1000, c16BigHi(c))
+	type job struct{ n, style int }
+	var jobs []job
+	for i := len(sizes) - 1; i >= 0; i-- { // largest first: better load balance
+		jobs = append(jobs, job{sizes[i], 0}, job{sizes[i], 1})
+	}
+	for _, j := range jobs {
+		c.Expect(1 + 3*int64(len(c16BigRanges(int32(j.n)))))
+	}
+	c.Par(len(jobs), func(ji int) {
+		if c.TooMany() {
+			return
+		}
+		j := jobs[ji]
+		keys := c16GenKeys(j.n, j.style)
+		order := int64(5)<<56 | int64(j.n)<<8 | int64(j.style)
+		cs := c16Case{GenN: j.n, GenStyle: j.style}
+		want := make([]int32, 0, len(keys))
+		for k := 0; k+1 < len(keys); k++ {
+			want = append(want, refFirstDiff2(keys[k], keys[k+1]))
+		}
+		got, p := firstDiffBits(keys)
+		if p != "" || !eqI32(got, want) {
+			c.Fail(order, "FirstDiffBits", "FirstDiffBits", cs, p+c16DiffSummary(got, want), "equal to the reference")
+		}
+		evals := int64(1)
+		// CountPrefixes over the whole list, its halves, and short ranges around every 1/8th
+		sb := sigbits.New(keys)
+		n := int32(j.n)
+		for _, r := range c16BigRanges(n) {
+			m0 := int32(1 << 30)
+			for k := r.s; k+1 < r.e; k++ {
+				if want[k] < m0 {
+					m0 = want[k]
+				}
+			}
+			for _, m := range []int32{1, 7, 17} {
+				cnt := c16CountsFromDiffs(want[r.s:r.e-1], m0, int(m))
+				cs2 := cs
+				cs2.S, cs2.E, cs2.M = r.s, r.e, m
+				gm, gc, p := func() (a int32, b []int32, p string) {
+					defer func() {
+						if e := recover(); e != nil {
+							p = fmt.Sprint("panic: ", e)
+						}
+					}()
+					a, b = sb.CountPrefixes(r.s, r.e, m)
+					return
+				}()
+				if p != "" || gm != m0 || !eqI32(gc, cnt) {
+					c.Fail(order|int64(m)<<4, "CountPrefixes", "CountPrefixes", cs2, fmt.Sprintf("%s(%d,%v)", p, gm, gc), fmt.Sprintf("(%d,%v)", m0, cnt))
+				}
+				evals++
+			}
+		}
+		c.Count(evals, evals)
+		c.Add("generated_key_lists", 1)
+		c.Max("largest_key_list", int64(j.n))
+	})
+}
+
+type c16Rg struct{ s, e int32 }
+
+// c16BigRanges: the whole list, its halves, and short ranges around every 1/8th.
+func c16BigRanges(n int32) []c16Rg {
+	rgs := []c16Rg{{0, n}, {0, n/2 + 1}, {n/2 - 1, n}, {1, n - 1}}
+	for k := int32(1); k < 8; k++ {
+		b := int32(int64(n) * int64(k) / 8)
+		rgs = append(rgs, c16Rg{b - 1, b + 1}, c16Rg{b - 2, b + 2}, c16Rg{b, b + 2})
+	}
+	var out []c16Rg
+	for _, r := range rgs {
+		if r.s >= 0 && r.e <= n && r.e-r.s >= 2 {
+			out = append(out, r)
+		}
+	}
+	return out
+}
+
+// c16CountsFromDiffs: the number of distinct t-bit prefixes among ascending keys
+// is 1 + the number of adjacent pairs whose first difference lies before bit t
+// (a key shorter than t bits counts as itself: it differs from its successor at
+// 8*len < t). diffs are the reference first-difference positions of the range.
+func c16CountsFromDiffs(diffs []int32, m0 int32, m int) []int32 {
+	out := make([]int32, m)
+	for i := range out {
+		t := m0 + int32(i)
+		cnt := int32(1)
+		for _, d := range diffs {
+			if d < t {
+				cnt++
+			}
+		}
+		out[i] = cnt
+	}
+	return out
+}
+
+func c16DiffSummary(got, want []int32) string {
+	if len(got) != len(want) {
+		return fmt.Sprintf("%d entries, want %d", len(got), len(want))
+	}
+	for i := range got {
+		if got[i] != want[i] {
+			return fmt.Sprintf("entry %d (keys %d and %d) is %d, want %d", i, i, i+1, got[i], want[i])
+		}
+	}
+	return "equal to the reference"
 }
 
 func init() {
 	mc.Register(&mc.Property{
 		ID:    "C16",
 		Level: "exploration",
-		Rule: "E1 bounded-exhaustive enumeration: key sets = every non-empty subset (in sorted order) of the 13 strings of length ≤2 over {00,'a',ff}, each behind the stems of 0/7/8/9/16/17/24/31/32/33/64/65 bytes; every subset of 12 keys built from 4 stem variants (first byte 's'/0x00/0xff, eighth byte 0x80); every subset of the 13 strings of length ≤2 over {'a',80,c3} and over {7f,80,bf} (UTF-8 continuation and lead bytes); every subset of 5 short keys behind EVERY stem length 0..80; two key sets with a full 256-byte fan-out below one key; four large key sets taken whole (31, 63, 121 and 341 keys); every subset of the 15 strings of length ≤3 over {00,'a'} and every subset of size ≤4 of the 40 strings of length ≤3 over {00,'a',ff} behind stems of 0 and 8 bytes (thorough adds every subset of the 21 strings of length ≤2 over {00,01,'a',ff} and the subsets of size 5..6 of the 40 strings): FirstDiffBits on the set; New+CountPrefixes for every 0 ≤ s, s+2 ≤ e ≤ len and every m in {1,2,4,7,10,17}. " +
+		Rule: "E1 bounded-exhaustive enumeration: key sets = every non-empty subset (in sorted order) of the 13 strings of length ≤2 over {00,'a',ff}, each behind the stems of 0/7/8/9/16/17/24/31/32/33/64/65 bytes; every subset of 12 keys built from 4 stem variants (first byte 's'/0x00/0xff, eighth byte 0x80); every subset of the 13 strings of length ≤2 over {'a',80,c3} and over {7f,80,bf} (UTF-8 continuation and lead bytes); every subset of 5 short keys behind EVERY stem length 0..80; two key sets with a full 256-byte fan-out below one key; four large key sets taken whole (31, 63, 121 and 341 keys); every subset of the 15 strings of length ≤3 over {00,'a'} and every subset of size ≤4 of the 40 strings of length ≤3 over {00,'a',ff} behind stems of 0 and 8 bytes (thorough adds every subset of the 21 strings of length ≤2 over {00,01,'a',ff} and the subsets of size 5..6 of the 40 strings): FirstDiffBits on the set; New+CountPrefixes for every 0 ≤ s, s+2 ≤ e ≤ len and every m in {1,2,4,7,10,17}. Generated key lists of EVERY threshold size n = b-1, b, b+1 (b in 2^k, 3·2^k, 10^k, 2·10^k, 5·10^k) from 1000 up to 400001 keys (thorough: 2^20+1), in two styles ('k'+3-byte big-endian counter; 8-byte stem + 7 decimal digits): FirstDiffBits on the list, CountPrefixes (m in {1,7,17}) over the whole list, its halves and short ranges around every 1/8th. " +
 			"Oracle: first differing index of the '0'/'1' renderings (8·min(len) for a byte-prefix); m0 = minimum over the range; counter i = number of distinct values of the bit string truncated to m0+i bits (adjacent-compare count in the hot path, cross-checked against a map count). A case is one call; non-trivial when the range holds ≥3 keys or the set has a shared stem; key sets that re-occur in a later family are executed again but counted once.",
 		Assumptions: []string{"key sets are drawn from small byte alphabets behind fixed stems; the 8-byte chunk boundaries are crossed through the stems"},
 		Run:         c16Run,
@@ -439,6 +583,7 @@ func c16Run(c *mc.Ctx) {
 		c.Add("key_sets", sets)
 		c.Add("map_count_crosschecks", cross)
 	})
+	c16Big(c)
 }
 
 func binom(n, k int) int64 {
@@ -453,7 +598,30 @@ func binom(n, k int) int64 {
 }
 
 func c16Judge(kind string, cs c16Case) (got, want string) {
-	keys := gen.StringsOf(cs.Keys)
+	keys := cs.keys()
+	if cs.GenN > 0 {
+		// generated lists: the reference is the byte-wise first difference (the bit-string
+		// rendering of 10^6 keys is not needed)
+		diffs := make([]int32, 0, len(keys))
+		for k := 0; k+1 < len(keys); k++ {
+			diffs = append(diffs, refFirstDiff2(keys[k], keys[k+1]))
+		}
+		switch kind {
+		case "FirstDiffBits":
+			g, p := firstDiffBits(keys)
+			return p + c16DiffSummary(g, diffs), "equal to the reference"
+		case "CountPrefixes":
+			m0 := int32(1 << 30)
+			for _, d := range diffs[cs.S : cs.E-1] {
+				if d < m0 {
+					m0 = d
+				}
+			}
+			cnt := c16CountsFromDiffs(diffs[cs.S:cs.E-1], m0, int(cs.M))
+			gm, gc, p := countPrefixes(keys, cs.S, cs.E, cs.M)
+			return fmt.Sprintf("%s(%d,%v)", p, gm, gc), fmt.Sprintf("(%d,%v)", m0, cnt)
+		}
+	}
 	bits := make([]string, len(keys))
 	for i, k := range keys {
 		bits[i] = ref.Bits(k)
